@@ -102,13 +102,22 @@ let sobs_of_string (s : string) : sobs =
 
 (* ---- C15 simulated histories: model_input is  c15h <call>,<call>,...  with calls
    B<ty> | H<host> | R<ty>:<name>:<host> | O (a call without name arguments) ---- *)
-let c15_call (s : string) : string =
+(* oracle for str::to_lowercase: "lc:<hex name>=<hex lower>;..." ; names not listed (and every
+   name of a case without oracle) are folded on ASCII only *)
+let parse_lc (o : string) : n list -> n list =
+  let o = if starts_with o "lc:" then String.sub o 3 (String.length o - 3) else o in
+  let tbl = List.filter_map (fun it -> match String.split_on_char '=' it with
+      | [ a; b ] -> Some (bytes_of_hex a, bytes_of_hex b) | _ -> None)
+      (List.filter (fun x -> x <> "") (String.split_on_char ';' o)) in
+  fun name -> match List.assoc_opt name tbl with Some l -> l | None -> lower name
+
+let c15_call (lc : n list -> n list) (s : string) : string =
   let op = s.[0] and arg = String.sub s 1 (String.length s - 1) in
   let r = match op with
-    | 'B' -> api_browse (bytes_of_hex arg)
-    | 'H' -> api_resolve_hostname (bytes_of_hex arg)
+    | 'B' -> api_browse lc (bytes_of_hex arg)
+    | 'H' -> api_resolve_hostname lc (bytes_of_hex arg)
     | 'R' -> (match String.split_on_char ':' arg with
-        | [ ty; nm; host ] -> api_register (bytes_of_hex ty) (bytes_of_hex nm) (bytes_of_hex host)
+        | [ ty; nm; host ] -> api_register lc (bytes_of_hex ty) (bytes_of_hex nm) (bytes_of_hex host)
         | _ -> failwith "register")
     | 'L' -> if len_max_refused (n_of_dec arg) then Err else Ok ()
     | 'O' -> Ok ()
@@ -142,7 +151,9 @@ let run_case (line : string) : string =
     let h = parse_history ~oracle:(parse_oracle orc) spec in
     String.concat " / " (List.map2 (fun i o -> string_of_sobs i.in_announced o) h (run h))
   | [ "c15h"; calls ] ->
-    "r=" ^ String.concat "," (List.map c15_call (String.split_on_char ',' calls)) ^ "|alive=1"
+    "r=" ^ String.concat "," (List.map (c15_call lower) (String.split_on_char ',' calls)) ^ "|alive=1"
+  | [ "c15h"; calls; orc ] ->
+    "r=" ^ String.concat "," (List.map (c15_call (parse_lc orc)) (String.split_on_char ',' calls)) ^ "|alive=1"
   | [ "c15h" ] -> "r=-|alive=1"
   | ("stress_shutdown" | "stress_cleanup") :: _ -> "OK"
   | _ -> "BADCASE"
@@ -167,7 +178,7 @@ let mon_c14 (case : string list) (result : string) : string =
    still serves (the projection provides alive=0|1 and the call results) *)
 let mon_c15 (case : string list) (result : string) : string =
   match case with
-  | [ "c15h" ] | [ "c15h"; _ ] ->
+  | [ "c15h" ] | [ "c15h"; _ ] | [ "c15h"; _; _ ] ->
     (match String.split_on_char '|' result with
      | [ r; alive ] ->
        let rs = String.split_on_char ',' (String.sub r 2 (String.length r - 2)) in
